@@ -7,19 +7,30 @@
    get_tags_with_attribute) are concrete; all other rules are arbitrary functions R1 R2 R3 of the resolved tree.
    The schema is an arbitrary resolver (s_find) -- theorems hold for ALL schemas, groups and annotations.
 
-   The model has a switch [fixed]: true = the code as it is now, i.e. after the repairs of C13-F2
-   (check_tag_formatting looks after the namespace), C13-F3 (check_capitalization ignores the namespace) and
-   C13-F4 (set_schema_prefix requires an ASCII namespace); false = the code before them.  PART 1 states the
-   theorems about the code as it is now; PART 2 keeps the partial theorem and the refutations of the unrepaired
-   code as the record of the repaired defects.  C13-F1 (one character-rule generation for a whole group) is NOT
-   repaired: it is the explicit hypothesis [schema83_group G = schema83_single Sp] and stays refuted below. *)
+   WHAT IS ASSUMED, NOT PROVED: every other validation rule (tag characters, value classes, units, extensions,
+   definitions, duplicates, placement, temporal rules ...) is an ARBITRARY function R1 R2 R3 of the resolved tree,
+   and the equivalence theorems ASSUME it is namespace-blind (hypothesis RUniform: its result does not change when
+   one namespace is written in front of every tag).  So C13_prefixed_equiv / C13_unprefixed_equiv prove that the
+   six namespace-sensitive mechanisms listed above commute with prefixing and assume it for all the others; for the
+   real rules this is TESTED only (implementation-side differential oracle).  C13_runiform_instances shows the
+   assumption is satisfiable by rules that ignore the namespace and by a rule that reads it.
+
+   "The code as it is" = /repo with the fix commits 02171e0 (C13-F2, check_tag_formatting looks after the
+   namespace), bb02e3e (C13-F3, check_capitalization ignores the namespace), 9d4df4f (C13-F4, set_schema_prefix
+   requires an ASCII namespace) and 02f8597 (C13-F5, tags are re-identified with the validator's schema before the
+   tag character check).  Model switches: [fixed] = true for the first three, [fixed5] = true for the fourth; the
+   value false of either switch is the behaviour BEFORE the commit and appears only in PART 2 (records of repaired
+   defects).  STILL OPEN in /repo: C13-F1 (one character-rule generation for a whole group: the explicit
+   hypothesis [schema83_group G = schema83_single Sp], refuted without it) and C13-F6 (re-identification from the
+   old short form: the explicit hypothesis [CleanReident], refuted without it). *)
 From Coq Require Import List NArith.
 From HV Require Import Base.Res Base.Str Base.SchemaData Model.Namespace Model.NamespaceX
   Model.NamespaceHist Proofs.NamespaceProofs Proofs.NamespaceHistProofs Proofs.NamespaceData Gen.Repo_c13.
 Import ListNotations.
 
 
-(* ====================================================================== PART 1: the code as it is now *)
+(* ====================================================================== PART 1: the code as it is now
+   (fixed = true: /repo with fix commits 02171e0, bb02e3e, 9d4df4f) *)
 Section Statements.
 Variable isalpha_c isprint_c : N -> bool.
 Variable foldc titlec lowerc : N -> N.
@@ -161,6 +172,12 @@ Theorem C13_partnered_contains_standard : forall (es : list entry) (B : table) (
 Proof. exact merge_keeps_standard. Qed.
 Print Assumptions C13_partnered_contains_standard.
 
+(* WHAT IS PROVED FOR "contains every standard tag with unchanged meaning": (i) the theorem above is conditional on
+   the library's names not colliding with the looked-up name; (ii) below, unconditionally in the library: an
+   ordinary (non-"#") standard name is unchanged OR a duplicate is recorded, hence unchanged whenever the merged
+   table records no duplicate (C13_standard_kept_if_no_dups); (iii) unconditional, all forms including "#" nodes,
+   attributes compared, only for the five bundled pairings by kernel evaluation (C13_partnered_pairs_bundled;
+   finite by nature).  For value ("#") nodes of arbitrary schemas only (i) is proved. *)
 (* ... and a collision with an ordinary standard name never goes unnoticed: the lookup is unchanged or a
    duplicate is recorded (has_duplicates / SCHEMA_DUPLICATE_NAMES). *)
 Theorem C13_standard_kept_or_clash : forall (es : list entry) (B : table) (k : key) (x : str) (v : entry),
@@ -168,6 +185,13 @@ Theorem C13_standard_kept_or_clash : forall (es : list entry) (B : table) (k : k
   km_get k (t_keys (fold_left add_tag es B)) = Some v \/ t_dups (fold_left add_tag es B) <> [].
 Proof. exact standard_kept_or_clash. Qed.
 Print Assumptions C13_standard_kept_or_clash.
+
+Theorem C13_standard_kept_if_no_dups : forall (es : list entry) (B : table) (k : key) (x : str) (v : entry),
+  KeyInv B -> km_get k (t_keys B) = Some v -> rev k = x :: tl (rev k) -> x <> hash_comp ->
+  t_dups (fold_left add_tag es B) = [] ->
+  km_get k (t_keys (fold_left add_tag es B)) = Some v.
+Proof. exact standard_kept_if_no_dups. Qed.
+Print Assumptions C13_standard_kept_if_no_dups.
 
 Theorem C13_built_tables_invariant : forall nodes : list tagdef, KeyInv (build_table nodes).
 Proof. exact KeyInv_build. Qed.
@@ -233,34 +257,47 @@ Theorem C13_reprefix_history_irrelevant :
   s_run isalpha_c isprint_c foldc titlec lowerc fixed R1 R2 R3 (strip G) ops.
 Proof. exact (reprefix_history_irrelevant isalpha_c isprint_c foldc titlec lowerc fixed R1 R2 R3). Qed.
 
-(* (a) An annotation object built under configuration A and judged by a validator for B.  FULL STATEMENT:
-     forall cA cB a, verdict_cross cA cB a = verdict cB a   -- FALSE of the code as it is (two refutations below).
-   Proved with the two defects as explicit hypotheses: re-identification of each tag under B gives what a fresh
-   identification gives (fails for C13-F6), and the tags are re-identified before the tag character check
-   (fix-F5, fixed5 = true) or that check sees no difference (C13-F5). *)
-Theorem C13_cross_validation_fresh_partial : forall (fixed5 : bool) (cA cB : cfg) (a : ann str),
+(* (a) An annotation object built under configuration A and judged by a validator for B, for the code as it is
+   (fixed5 = true: re-identification precedes the tag character check since fix commit 02f8597).  FULL STATEMENT:
+     forall cA cB a, verdict_cross true cA cB a = verdict cB a
+   is FALSE of the code as it is because of the OPEN finding C13-F6 (refutation below).  Proved with that defect as
+   the one explicit hypothesis: re-identifying each tag under B gives what a fresh identification gives. *)
+Theorem C13_cross_validation_fresh_partial : forall (cA cB : cfg) (a : ann str),
   CleanReident cA cB a ->
-  (fixed5 = true \/ R1 (c_flag cB) (ann_map (fun t => fst (resolve_tag cA t)) a)
-                    = R1 (c_flag cB) (ann_map (fun t => fst (resolve_tag cB t)) a)) ->
-  verdict_cross isalpha_c isprint_c foldc titlec lowerc fixed R1 R2 R3 fixed5 cA cB a =
+  verdict_cross isalpha_c isprint_c foldc titlec lowerc fixed R1 R2 R3 true cA cB a =
   verdict isalpha_c isprint_c foldc titlec lowerc fixed R1 R2 R3 cB a.
-Proof. exact (cross_validation_fresh isalpha_c isprint_c foldc titlec lowerc fixed R1 R2 R3). Qed.
+Proof. exact (cross_validation_fresh_now isalpha_c isprint_c foldc titlec lowerc fixed R1 R2 R3). Qed.
 End Histories.
 Print Assumptions C13_reprefix_history_irrelevant.
 Print Assumptions C13_cross_validation_fresh_partial.
 
-(* C13-F5 (known finding, fix-F5 proposed): the tag character check runs on the state left by the schemas the object
-   was built with; with the tags re-identified first the verdict is the fresh one *)
-Theorem C13_cross_refuted_char_check_before_reidentification :
-  let cA := cfg_group [([], s_ext); (ns_tl, s_ext)] in
-  let cB := cfg_group [([], s_ext)] in
-  let a := AGrp [ATag s_tl_r_ab] in
-  x_cross false cA cB a = [LibraryUnmatched] /\ x_fresh cB a = [OtherCode 1 true; LibraryUnmatched]
-  /\ x_cross true cA cB a = x_fresh cB a.
-Proof. exact cross_refuted_char_check_before_reidentification. Qed.
-Print Assumptions C13_cross_refuted_char_check_before_reidentification.
+(* Non-vacuity of C13_reprefix_history_irrelevant: a freshly loaded group satisfies CacheOK, and on a concrete
+   history (validate, re-prefix to "tl:", validate, refused re-prefix "t1", validate) the modelled code gives the
+   memory-less verdicts, the unique-tag error included. *)
+Theorem C13_fresh_group_cache_ok : forall l : list loaded,
+  CacheOK (map (fun L => mkH (fst L) (snd L) (fun _ => None)) l).
+Proof. exact fresh_cache_ok. Qed.
+Print Assumptions C13_fresh_group_cache_ok.
 
-(* C13-F6 (known finding): re-identification starts from the short form the tag had under the other schemas *)
+Example C13_reprefix_history_nonvacuous :
+  CacheOK hist_G /\
+  x_h_run hist_G hist_ops = [Some [TagNotUnique]; None; Some [TagNotUnique]; None; Some []] /\
+  x_s_run (strip hist_G) hist_ops = [Some [TagNotUnique]; None; Some [TagNotUnique]; None; Some []].
+Proof. exact reprefix_history_nonvacuous. Qed.
+Print Assumptions C13_reprefix_history_nonvacuous.
+
+(* The history theorem depends on WHAT the cache holds.  The model caches entry names without the namespace because
+   that is what HedSchemaSection.get_entries_with_attribute does (checked by the re-prefix histories of the harness).
+   CONTRAST, not the code: for the variant that caches the names WITH the namespace current at the first use (the
+   independently seeded change C13/4) the statement is false on the same history. *)
+Theorem C13_stale_name_cache_variant_refuted :
+  CacheOK hist_G /\ x_h_run_stale hist_G hist_ops <> x_s_run (strip hist_G) hist_ops
+  /\ x_h_run_stale hist_G hist_ops = [Some [TagNotUnique]; None; Some []; None; Some []].
+Proof. exact stale_name_cache_refuted. Qed.
+Print Assumptions C13_stale_name_cache_variant_refuted.
+
+(* C13-F6 (OPEN in /repo): re-identification starts from the short form the tag had under the other schemas.
+   Witness for the code as it is (fixed5 = true): "I/O", a full tag under A, base + extension under B. *)
 Theorem C13_cross_refuted_reidentification_from_short_form :
   let cA := cfg_single ([], toy_sch find_A None true (8, 3, 0) true) in
   let cB := cfg_single ([], toy_sch find_B None true (8, 3, 0) true) in
@@ -269,6 +306,14 @@ Theorem C13_cross_refuted_reidentification_from_short_form :
 Proof. exact cross_refuted_reidentification_from_short_form. Qed.
 Print Assumptions C13_cross_refuted_reidentification_from_short_form.
 
+(* the code as it is (fixed5 = true) on the witness that refuted the behaviour before 02f8597: fresh verdict *)
+Example C13_cross_char_check_witness_now :
+  let cA := cfg_group [([], s_ext); (ns_tl, s_ext)] in
+  let cB := cfg_group [([], s_ext)] in
+  x_cross true cA cB (AGrp [ATag s_tl_r_ab]) = x_fresh cB (AGrp [ATag s_tl_r_ab]).
+Proof. exact (proj2 (proj2 cross_refuted_char_check_before_reidentification)). Qed.
+Print Assumptions C13_cross_char_check_witness_now.
+
 Example C13_cross_nonvacuous :
   let cA := cfg_group [([], s_ext); (ns_tl, s_ext)] in
   let cB := cfg_group [([], s_ext); (ns_tl, std83)] in
@@ -276,6 +321,14 @@ Example C13_cross_nonvacuous :
   CleanReident cA cB a /\ x_cross true cA cB a = x_fresh cB a.
 Proof. exact cross_nonvacuous. Qed.
 Print Assumptions C13_cross_nonvacuous.
+
+(* RUniform (the ASSUMPTION on the abstract rules) is satisfiable: by every rule that reads the tags with the
+   namespace erased, and by a rule that does read the namespace ("the same tag text twice") *)
+Theorem C13_runiform_instances :
+  (forall f : bool -> ann rtag -> list code, RUniform (fun b t => f b (ann_map (set_ns []) t))) /\
+  RUniform repeated_text_rule.
+Proof. exact (conj RUniform_erased RUniform_repeated_text). Qed.
+Print Assumptions C13_runiform_instances.
 
 (* Several libraries merged under ONE prefix ("x:score_1.1.0,testlib_2.0.0"): in the loader model the merged schema
    is the same as the one merged without a prefix, except for its namespace -- same tag table, same recorded
@@ -289,8 +342,63 @@ Theorem C13_merged_under_prefix_same_schema :
 Proof. exact merged_under_prefix_same_schema. Qed.
 Print Assumptions C13_merged_under_prefix_same_schema.
 
+(* Construction routes.  A library merged into an already prefixed schema object through the public `schema=`
+   parameter of load_schema / from_string WITHOUT repeating the namespace keeps the object's namespace, gives exactly
+   the schema that _load_schema_version builds at the same step of "ns:v0,...,v", and repeating the namespace
+   changes nothing -- for every folder, file and object (tag section only, as everywhere in the loader model). *)
+Theorem C13_merge_route_keeps_prefix :
+  forall (isa : N -> bool) (fixed : bool) (rp : repo) (f : sfile) (first L : lschema),
+  load_schema_pub isa fixed rp f [] (Some first) = LOk L -> l_ns L = l_ns first.
+Proof. exact merge_route_keeps_prefix. Qed.
+Print Assumptions C13_merge_route_keeps_prefix.
+
+Theorem C13_merge_route_equals_version_list :
+  forall (isa : N -> bool) (fixed : bool) (rp : repo) (v : str) (f : sfile) (ns : str) (first L : lschema),
+  lookup v rp = Some f ->
+  (ns = [] /\ l_ns first = [] \/ set_schema_prefix isa fixed ns = Ok (l_ns first) /\ ns <> []) ->
+  load_sub isa fixed rp v ns (Some first) = LOk L ->
+  load_schema_pub isa fixed rp f [] (Some first) = LOk L.
+Proof. exact merge_route_equals_version_list. Qed.
+Print Assumptions C13_merge_route_equals_version_list.
+
+Theorem C13_merge_route_repeat_same :
+  forall (isa : N -> bool) (fixed : bool) (rp : repo) (f : sfile) (ns : str) (first L : lschema),
+  set_schema_prefix isa fixed ns = Ok (l_ns first) -> ns <> [] ->
+  load_schema_pub isa fixed rp f [] (Some first) = LOk L ->
+  load_schema_pub isa fixed rp f ns (Some first) = LOk L.
+Proof. exact merge_route_repeat_same. Qed.
+Print Assumptions C13_merge_route_repeat_same.
+
 (* ====================================================================== PART 2: record of the repaired defects
-   (fixed = false: the code before the fix: commits for C13-F2, C13-F3, C13-F4) *)
+   (fixed = false: the behaviour before fix commits 02171e0 (C13-F2), bb02e3e (C13-F3), 9d4df4f (C13-F4);
+    fixed5 = false: the behaviour before fix commit 02f8597 (C13-F5).  None of this is true of /repo any more.) *)
+
+(* C13-F5, REPAIRED by fix commit 02f8597.  Record: before it the tag character check ran on the state left by the
+   schemas the object was built with -- "tl:R/a b" built where tl: is loaded and judged where it is not lost the
+   invalid-character issue of the blank.  (Its third conjunct, the code as it is now, is C13_cross_char_check_witness_now.) *)
+Theorem C13_cross_refuted_char_check_before_fix_02f8597 :
+  let cA := cfg_group [([], s_ext); (ns_tl, s_ext)] in
+  let cB := cfg_group [([], s_ext)] in
+  let a := AGrp [ATag s_tl_r_ab] in
+  x_cross false cA cB a = [LibraryUnmatched] /\ x_fresh cB a = [OtherCode 1 true; LibraryUnmatched]
+  /\ x_cross true cA cB a = x_fresh cB a.
+Proof. exact cross_refuted_char_check_before_reidentification. Qed.
+Print Assumptions C13_cross_refuted_char_check_before_fix_02f8597.
+
+(* what could be proved of the behaviour before 02f8597: the fresh verdict only when, in addition, the character
+   check happened to see no difference between the two identifications *)
+Theorem C13_cross_validation_fresh_partial_before_fix_02f8597 :
+  forall (isalpha_c isprint_c : N -> bool) (foldc titlec lowerc : N -> N) (fixed : bool)
+         (R1 R2 R3 : bool -> ann rtag -> list code) (cA cB : cfg) (a : ann str),
+  CleanReident cA cB a ->
+  R1 (c_flag cB) (ann_map (fun t => fst (resolve_tag cA t)) a) = R1 (c_flag cB) (ann_map (fun t => fst (resolve_tag cB t)) a) ->
+  verdict_cross isalpha_c isprint_c foldc titlec lowerc fixed R1 R2 R3 false cA cB a =
+  verdict isalpha_c isprint_c foldc titlec lowerc fixed R1 R2 R3 cB a.
+Proof.
+  exact (fun ia ip fc tc lc fx r1 r2 r3 cA cB a H1 H2 =>
+           cross_validation_fresh ia ip fc tc lc fx r1 r2 r3 false cA cB a H1 (or_intror H2)).
+Qed.
+Print Assumptions C13_cross_validation_fresh_partial_before_fix_02f8597.
 
 (* what could be proved of the unrepaired code: the equivalence only where the slash pattern and the
    capitalisation rule happened to agree and the characters of the namespace passed the character rule *)
@@ -318,21 +426,21 @@ Theorem C13_fmt_count_prefixed : forall p t : str,
 Proof. exact fmt_count_prefixed. Qed.
 Print Assumptions C13_fmt_count_prefixed.
 
-(* C13-F2 (repaired): "tl:/Red/" got one NODE_NAME_EMPTY, "/Red/" two *)
+(* C13-F2 (REPAIRED by fix commit 02171e0; behaviour before it): "tl:/Red/" got one NODE_NAME_EMPTY, "/Red/" two *)
 Theorem C13_prefixed_equiv_refuted_leading_slash_before_repair :
   exists G p Sp a, structural G p Sp a /\ schema83_group G = schema83_single Sp /\
     x_verdict false (cfg_group G) (prefix_ann p a) <> x_verdict false (cfg_single ([], Sp)) a.
 Proof. exact prefixed_equiv_refuted_leading_slash. Qed.
 Print Assumptions C13_prefixed_equiv_refuted_leading_slash_before_repair.
 
-(* C13-F3 (repaired): "tl:3a" got a STYLE_WARNING, "3a" did not *)
+(* C13-F3 (REPAIRED by fix commit bb02e3e; behaviour before it): "tl:3a" got a STYLE_WARNING, "3a" did not *)
 Theorem C13_prefixed_equiv_refuted_capitalization_before_repair :
   exists G p Sp a, structural G p Sp a /\ schema83_group G = schema83_single Sp /\
     x_verdict false (cfg_group G) (prefix_ann p a) <> x_verdict false (cfg_single ([], Sp)) a.
 Proof. exact prefixed_equiv_refuted_capitalization. Qed.
 Print Assumptions C13_prefixed_equiv_refuted_capitalization_before_repair.
 
-(* C13-F4 (repaired): "é:" was accepted as a namespace although every tag written with it is CHARACTER_INVALID
+(* C13-F4 (REPAIRED by fix commit 9d4df4f; behaviour before it): "é:" was accepted as a namespace although every tag written with it is CHARACTER_INVALID
    under the pre-8.3 rules; it is refused now *)
 Theorem C13_prefixed_equiv_refuted_nonascii_prefix_before_repair :
   exists G p Sp a, structural G p Sp a /\ schema83_group G = schema83_single Sp /\
